@@ -1065,7 +1065,13 @@ str_case_cmp (char *a, char *b)
   COPY_PTR (&s1, a);
   COPY_PTR (&s2, b);
 
-  return (int)(s1 - s2);
+  /* f_switch() compares the full addresses (and 0, for "case 0:", is the lowest):
+   * the difference of two addresses does not fit an int */
+  if (s1 < s2)
+    return -1;
+  if (s1 > s2)
+    return 1;
+  return 0;
 }				/* str_case_cmp() */
 
 static void
